@@ -63,26 +63,38 @@ structure SiteShape where
 def stripAll : List Effect :=
   [.delContentEncoding, .delContentLength, .contentLengthMinus1, .uncompressedTrue]
 
-/-- The code as it is with fixes/C14-1..3. -/
+/-- Canonical order of a block's statements (they are independent of each other: four
+header/field rewrites and at most one body assignment), so that reordering them in the source
+is not a shape change. -/
+def canonEffects (l : List Effect) : List Effect :=
+  stripAll.filter (fun e => l.contains e) ++ l.filter (fun e => !stripAll.contains e)
+
+def canonAsk (l : List Ask) : List Ask :=
+  [Ask.notDisabled, .noAcceptEncoding, .noRange, .notHead, .other].filter (fun a => l.contains a)
+
+def canonAuto (l : List AutoCond) : List AutoCond :=
+  [AutoCond.auto, .notHead, .other].filter (fun a => l.contains a)
+
+/-- The code as it is with fixes/C14-1..3 (blocks in canonical order). -/
 def shape : Site → SiteShape
   | .h1 => {
       ask := [.notDisabled, .noAcceptEncoding, .noRange, .notHead]
       gzipTest := .equalFold, gzipToken := tokGzip
-      gzipEffects := [.set .body .gzipReader, .delContentEncoding, .delContentLength, .contentLengthMinus1, .uncompressedTrue]
+      gzipEffects := [.delContentEncoding, .delContentLength, .contentLengthMinus1, .uncompressedTrue, .set .body .gzipReader]
       autoConds := [.auto], autoGuard := .readerExists
       autoEffects := [.delContentEncoding, .delContentLength, .contentLengthMinus1, .uncompressedTrue, .set .body .reader]
       elseEffects := [], before := .set .body .raw, after := .none }
   | .h2 => {
       ask := [.notDisabled, .noAcceptEncoding, .noRange, .notHead]
       gzipTest := .equalFold, gzipToken := tokGzip
-      gzipEffects := [.delContentEncoding, .delContentLength, .contentLengthMinus1, .set .body .gzipReader, .uncompressedTrue]
+      gzipEffects := [.delContentEncoding, .delContentLength, .contentLengthMinus1, .uncompressedTrue, .set .body .gzipReader]
       autoConds := [.auto], autoGuard := .readerExists
       autoEffects := [.delContentEncoding, .delContentLength, .contentLengthMinus1, .uncompressedTrue, .set .body .reader]
       elseEffects := [], before := .set .body .raw, after := .none }
   | .h3 => {
-      ask := [.notDisabled, .notDisabled, .notHead, .noAcceptEncoding, .noRange]
+      ask := [.notDisabled, .noAcceptEncoding, .noRange, .notHead]
       gzipTest := .equalFold, gzipToken := tokGzip
-      gzipEffects := [.delContentEncoding, .delContentLength, .contentLengthMinus1, .set .responseBody .gzipReader, .uncompressedTrue]
+      gzipEffects := [.delContentEncoding, .delContentLength, .contentLengthMinus1, .uncompressedTrue, .set .responseBody .gzipReader]
       autoConds := [.auto, .notHead], autoGuard := .readerExists
       autoEffects := [.delContentEncoding, .delContentLength, .contentLengthMinus1, .uncompressedTrue, .set .responseBody .reader]
       elseEffects := [], before := .set .responseBody .raw, after := .set .body .responseBody }
@@ -92,9 +104,9 @@ def Legacy.shape : Site → SiteShape
   | .h1 => { Req.Compress.shape .h1 with autoGuard := .encodingNonempty }
   | .h2 => { Req.Compress.shape .h2 with autoGuard := .encodingNonempty }
   | .h3 => {
-      ask := [.notDisabled, .notDisabled, .notHead, .noAcceptEncoding, .noRange]
+      ask := [.notDisabled, .noAcceptEncoding, .noRange, .notHead]
       gzipTest := .eq, gzipToken := tokGzip
-      gzipEffects := [.delContentEncoding, .delContentLength, .contentLengthMinus1, .set .responseBody .gzipReader, .uncompressedTrue]
+      gzipEffects := [.delContentEncoding, .delContentLength, .contentLengthMinus1, .uncompressedTrue, .set .responseBody .gzipReader]
       autoConds := [.auto], autoGuard := .encodingNonempty
       autoEffects := [.delContentEncoding, .delContentLength, .contentLengthMinus1, .uncompressedTrue, .set .body .reader]
       elseEffects := [.set .responseBody .raw], before := .none, after := .set .body .responseBody }
